@@ -110,7 +110,7 @@ type nativeRun struct {
 
 func runNative(bin string, replayPath string, harness string, timeout time.Duration) (*nativeRun, error) {
 	cmd := exec.Command(bin, "-test.run", "^TestVHReplay$", "-test.v", "-test.timeout", "120s")
-	cmd.Env = append(os.Environ(), "VERIF_REPLAY="+replayPath, "VERIF_HARNESS="+harness)
+	cmd.Env = append(os.Environ(), "VERIF_REPLAY="+replayPath, "VERIF_HARNESS="+harness, "VERIF_TIER="+*flagTier)
 	cmd.Dir = filepath.Dir(bin)
 	var outb bytes.Buffer
 	cmd.Stdout = &outb
@@ -199,7 +199,7 @@ func replayFile(prop, harnessDir, rtDir, path string) int {
 	if cfg.Tags != "" {
 		tags += "," + cfg.Tags
 	}
-	ld, err := loadProgram(*flagRepo, harnessDir, rtDir, tags)
+	ld, err := loadProgram(*flagRepo, harnessDir, rtDir, tags, cfg.Shared)
 	if err != nil {
 		fmt.Fprintln(os.Stderr, "LOAD FAILED:", err)
 		return 2
